@@ -119,7 +119,15 @@ def context_rules(check: Check) -> None:
             return None
         h = hs[-1]
         it = [q for q, _ in h.pred if q.kind == "iter"]
-        return r.term(h.ast.iter, it[0]) if it else None  # type: ignore[union-attr]
+        if not it:
+            return None
+        t_ = r.term(h.ast.iter, it[0])  # type: ignore[union-attr]
+        # iterating a dict, its keys() or its items() ranges over the same keys
+        while t_[0] == "call" and t_[1][0] == "attr" and t_[1][2] in ("items", "keys") and not t_[2]:
+            t_ = t_[1][1]
+        if t_[0] == "call" and t_[1][0] == "global" and t_[1][1] in ("list", "tuple", "sorted", "iter") and len(t_[2]) == 1:
+            t_ = t_[2][0]
+        return t_
 
     apply_iters = {loop_iter_term(n) for n, _ in applies}
     restore_iters = {loop_iter_term(n) for n, _ in restores}
@@ -169,19 +177,22 @@ def context_rules(check: Check) -> None:
                   f"the set of settings to restore is filtered by their current values (`{offending[0][1][:80]}`): a named setting that already holds the requested "
                   "value is not restored, so a direct assignment inside the context leaks out", loc(fn, offending[0][0] if offending else fn.node))
     keys_ok = all(t[2][1] != t[2][2] and t[2][1][0] in ("unpack", "elem") for _, t in applies)
+    restore_keys_ok = all(t[2][1][0] in ("unpack", "elem") for _, t in restores)
     check.require(keys_ok, "Y4", "Settings.context/apply", "apply loop sets attribute `key` to `value` of each named setting",
                   loc(fn, applies[0][0]))
 
 
-def context_params(fn) -> tuple[list[str], dict[str, str]]:
+def context_params(fn, program=None) -> tuple[list[str], dict[str, str]]:
     params = [x.name for x in fn.params if x.kind == "kwonly"]
     renames: dict[str, str] = {}
-    for n in ast.walk(fn.node):
-        if isinstance(n, ast.Assign) and len(n.targets) == 1 and isinstance(n.targets[0], ast.Subscript) and \
-                isinstance(n.targets[0].slice, ast.Constant) and isinstance(n.value, ast.Call) and \
-                isinstance(n.value.func, ast.Attribute) and n.value.func.attr == "pop" and n.value.args and \
-                isinstance(n.value.args[0], ast.Constant):
-            renames[n.value.args[0].value] = n.targets[0].slice.value
+    if program is not None:
+        r = Resolver(program, fn)
+        for n in r.cfg.stmt_nodes():
+            a_ = n.ast
+            if isinstance(a_, ast.Assign) and len(a_.targets) == 1 and isinstance(a_.targets[0], ast.Subscript) and isinstance(a_.targets[0].slice, ast.Constant):
+                v = r.term(a_.value, n)
+                if v[0] == "call" and v[1][0] == "attr" and v[1][2] == "pop" and v[2] and v[2][0][0] == "const":
+                    renames[v[2][0][1]] = a_.targets[0].slice.value
     return params, renames
 
 
@@ -190,7 +201,7 @@ def param_table(check: Check) -> None:
     fn = p.func("Settings.context")
     init = p.func("Settings.__init__")
     check.analysed(init)
-    params, renames = context_params(fn)
+    params, renames = context_params(fn, p)
     attrs = set()
     for n in ast.walk(init.node):
         if isinstance(n, (ast.Assign, ast.AnnAssign)):
